@@ -3,6 +3,7 @@
   Property theorems only; helper lemmas live in Tranp/Lemmas/SymbolJson.lean.
 -/
 import Tranp.Lemmas.SymbolJson
+import Tranp.Generated.SymbolTables
 
 namespace Tranp.C14
 open Tranp Tranp.SymbolJson
@@ -436,6 +437,107 @@ example :
     let a : IAttr := .mk 0 ['l'] [.mk 1 ['l'] [.mk 2 ['l'] [.mk 3 ['T'] []]]]
     (idsN (toTemp a 10).1 = [10, 11, 12, 13] ∧ setSlot 12 0 (.mk 9 ['s'] []) a = a ∧
       setSlot 12 0 (.mk 9 ['s'] []) (toTemp a 10).1 = .mk 10 ['l'] [.mk 11 ['l'] [.mk 12 ['l'] [.mk 9 ['s'] []]]]) := by
+  decide +kernel
+
+
+/-! ### node DSNs -/
+
+/-- `deserialize` finds the node `serialize` wrote: `ModuleDSN.parsed(ModuleDSN.full_joined(module, path)) = (module, path)` for a
+    non-empty module path, when neither part contains `#`; and the module of a key (`modOf`) is `parsed(key)[0]`. -/
+theorem dsn_rt (m p : Str) (hm : m ≠ []) (hm' : ∀ c ∈ m, c ≠ '#') (hp' : ∀ c ∈ p, c ≠ '#') :
+    dsnParsed (fullJoined m [p]) = (m, p) ∧ modOf (fullJoined m [p]) = m := by
+  have h := dsnParsed_fullJoined m p hm hm' hp'
+  exact ⟨h, by rw [modOf_eq_parsed, h]⟩
+
+example : fullJoined ['a', '.', 'b'] [['f', '.', 'c', '[', '1', ']']] = ['a', '.', 'b', '#', 'f', '.', 'c', '[', '1', ']'] ∧
+    dsnParsed ['a', '.', 'b', '#', 'f', '.', 'c', '[', '1', ']'] = (['a', '.', 'b'], ['f', '.', 'c', '[', '1', ']']) ∧
+    -- the guard is needed: an empty module path loses the separator
+    dsnParsed (fullJoined [] [['f']]) = (['f'], []) := by
+  decide +kernel
+
+/-! ### every entry kind carries its attributes; the import does not consume its input -/
+
+namespace Ex
+
+def kNX : Str := ['n', '#', 'x']
+def nImp : Str := ['n', '#', 'i', 'm', 'p']
+
+def W2 : World := { known := fun _ => true, isClassDef := fun n => n != kX && n != nImp, isDecl := fun _ => true, fullyname := id }
+
+/-- module `m` as in `ordered`, and module `n` with `from m import x`: an imported variable of the generic type `G[int]`; its node is
+    the import statement, its declaration the variable of `m`, its attributes are those of the variable -/
+def withImport : Table := { items := ordered.items ++ [(kNX, { types := kG, node := nImp, decl := kX, via := kG, attrs := [.mk kI []] })] }
+
+def restoredAttrs (W : World) (t : Table) (M : Str) (f : List (Str × Row) → List (Str × Row)) (k : Str) : Option Forest :=
+  match toJson W t (some M) with
+  | .ok d =>
+    (match importJson W { items := t.items.filter (fun ks => modOf ks.1 != M) } (f d) with
+      | .ok T => (dictGet? T.items k).map (·.attrs)
+      | .error _ => none)
+  | .error _ => none
+
+/-- what a `serialize` that leaves the attributes of import entries out would write -/
+def dropAttrs (d : List (Str × Row)) : List (Str × Row) :=
+  d.map (fun kr => (kr.1, match kr.2 with
+    | .reflection nd dc o v _ => if nd == nImp then Row.reflection nd dc o v [] else kr.2
+    | r => r))
+
+/-- what is left of the caller's data after an import that pops the attribute paths it reads -/
+def consumed (d : List (Str × Row)) : List (Str × Row) :=
+  d.map (fun kr => (kr.1, match kr.2 with
+    | .reflection nd dc o v _ => Row.reflection nd dc o v []
+    | .symbol ty _ => Row.symbol ty []))
+
+end Ex
+
+/-- the imported generic-typed variable is restored with its type argument (an instance of `rt`: the entry satisfies `SymOK`) -/
+example : Ex.restoredAttrs Ex.W2 Ex.withImport ['n'] id Ex.kNX = some [.mk Ex.kI []] ∧
+    SymOK Ex.W2 Ex.withImport { types := Ex.kG, node := Ex.nImp, decl := Ex.kX, via := Ex.kG, attrs := [.mk Ex.kI []] } := by
+  refine ⟨by decide +kernel, fun h => absurd h (by decide),
+    fun _ => ⟨rfl, rfl, rfl, Ex.cls Ex.kG [.mk Ex.kT []], by decide +kernel, rfl, fun h => absurd h (by decide)⟩,
+    ⟨⟨_, (by decide +kernel : Table.lookup Ex.W2 Ex.withImport Ex.kI = some (Ex.kI, [])), fun _ => rfl⟩, trivial⟩, trivial⟩
+
+/-- regression (seeded mutation): a `serialize` that writes `'attrs': {}` for import entries ("they inherit from what they refer
+    to") makes the imported `G[int]` variable come back as `G[T]` — the attributes of an import entry are those of the variable, not
+    of the class its type key names -/
+theorem import_attrs_counterexample :
+    Ex.restoredAttrs Ex.W2 Ex.withImport ['n'] Ex.dropAttrs Ex.kNX = some [.mk Ex.kT []] ∧
+    Ex.restoredAttrs Ex.W2 Ex.withImport ['n'] id Ex.kNX ≠ Ex.restoredAttrs Ex.W2 Ex.withImport ['n'] Ex.dropAttrs Ex.kNX := by
+  constructor <;> decide +kernel
+
+/-- regression (seeded mutation): `import_json` must not consume its input. The model takes the rows by value (`import_idem`: the
+    same rows imported again give the same table); with an import that pops the attribute paths it reads, the rows the caller
+    still holds import to other entries (`x: G[int]` comes back without its type argument) -/
+theorem import_pop_counterexample :
+    Ex.restoredAttrs Ex.W Ex.ordered Ex.M id Ex.kX = some [.mk Ex.kI []] ∧
+    Ex.restoredAttrs Ex.W Ex.ordered Ex.M Ex.consumed Ex.kX = some [] := by
+  constructor <;> decide +kernel
+
+
+/-! ### the invariants, decided for the shipped library modules (generated table, re-generated on every run) -/
+
+open Tranp.Generated.SymbolTables in
+/-- the hypotheses of `order` and `rt` hold for every module of the generated library table
+    (`lean/Tranp/Generated/SymbolTables.lean`, written by translate/gen_symbol_tables.py from the real `SymbolDB`): decided by the kernel -/
+theorem shipped_invariants : ∀ M ∈ modules, M ≠ [] ∧ Loaded world table M rank ∧
+    (table.items.all (fun ks => modOf ks.1 != M || symOKb world table ks.2)) = true := by
+  decide +kernel
+
+open Tranp.Generated.SymbolTables in
+/-- **Round trip of the shipped library modules, without hypotheses**: for each of them, whatever `to_json` exports is imported
+    into the table of the other modules without error, restores every entry (types, node, decl, attribute forest), completes the
+    module, and importing the same rows again changes nothing. -/
+theorem shipped_rt (M : Str) (hM : M ∈ modules) (b : Table) (d : List (Str × Row))
+    (hb : b.items = table.items.filter (fun ks => modOf ks.1 != M)) (hexp : toJson world table (some M) = .ok d) :
+    ∃ T, importJson world b d = .ok T ∧ importJson world T d = .ok T ∧
+      ∀ K s, dictGet? table.items K = some s → modOf K = M →
+        (∃ s', dictGet? T.items K = some s' ∧ DescEq s' s) ∧ T.isCompleted M = true := by
+  obtain ⟨h1, h2, h3⟩ := shipped_invariants M hM
+  exact rt_loaded world table b M d rank h1 hb hexp h2 (symOK_of_check world table M h3)
+
+open Tranp.Generated.SymbolTables in
+/-- non-vacuity: the generated table is not empty and every listed module exports at least one row -/
+example : modules ≠ [] ∧ ∀ M ∈ modules, (match toJson world table (some M) with | .ok d => !d.isEmpty | .error _ => false) = true := by
   decide +kernel
 
 end Tranp.C14
